@@ -73,4 +73,11 @@ PROPS = {
         'correspondence': 'line cases: kind, Text(), list id and match results vs the model; list cases: sequence of rule texts the storage scanner yields vs the model line-by-line parse; Go-side flags: Text()!=TrimSpace(line), any panic, engine results changed by noise or by CRLF',
         'assumptions': ['PARTIAL: the model expresses only the index/slice class of crashes (checked slice expressions); nil dereferences, map writes, stack exhaustion and panics inside regexp/netip are exercised by the harness under recover() only', 'lines with bytes >= 0x80 in network rules are outside the modelled fragment (Go-side checks still apply)'],
     },
+    'C03': {
+        'harness': 'c03',
+        'rule': 'ALL mask patterns of 1..3 tokens (quick; 1..4 thorough) over the 14-symbol alphabet | * ^ a B . / ? ( [ \\ $ + { (every regex metacharacter, pipes in every position), plus sampled patterns of 4-9 symbols, grammar patterns (also with trailing /*, |, ^, ||) and random printable strings; with and without $match-case; each with 6-7 subject strings derived from the pattern (matching, case-swapped, deviating, separator / non-separator bytes at ^, scheme variants at ||, newline) ; non-trivial = the pattern compiled to a regular expression; distinct = distinct (pattern, flag, subjects)',
+        'correspondence': 'status of preparePattern, source text of the compiled regexp (regexp.String()) vs the model text, and MatchString per subject vs the model matcher (which by C03_parse/C03_match equals the regex-free mask semantics)',
+        'exhaustive_part': 'patterns up to the stated token bound over the 14-symbol alphabet',
+        'assumptions': ['subjects and patterns ASCII'],
+    },
 }
